@@ -227,6 +227,16 @@ def calling_fails(ctx, case):
         if vf is not None and vi is not None and np.all(np.isfinite(vf)) and (vi.shape != vf.shape or not ok(vf, vi)):
             return 'calling-int-%s: nthderiv.%s at the integer points %s given as an int array differs from the float call (n=%d): %s vs %s' % (
                 case['fn'], case['fn'], ipts.tolist(), n, vi.tolist(), vf.tolist())
+    # the points given as a Python list / nested list (NumPy and SciPy accept array_like points): the same values as for the array
+    for pts, lab in ((xs.tolist(), 'list'), ([xs.tolist()], 'nested list'), (tuple(xs.tolist()), 'tuple')):
+        try:
+            with np.errstate(all='ignore'):
+                vl = np.array(_call(case, pts, n), dtype=float)
+        except Exception as ex:
+            return 'calling-list-exception-%s: nthderiv.%s raised %s for points given as a %s (n=%d); the array call works' % (
+                case['fn'], case['fn'], type(ex).__name__, lab, n)
+        if vl.size != a.size or not ok(vl.ravel(), a.ravel()):
+            return 'calling-list-%s: nthderiv.%s with points given as a %s differs from the array call (n=%d)' % (case['fn'], case['fn'], lab, n)
     # array-valued parameters (SciPy's polygamma / hyperu broadcast them): entry k is the n-th derivative for parameter k
     if case['fn'] in ('polygamma', 'hyperu'):
         f = getattr(nd, case['fn'])
